@@ -25,6 +25,9 @@ import (
 // methods of the codec package by bare name (filled by a pre-pass), for delegation wrappers
 var codecMethods = map[string]*ast.FuncDecl{}
 
+// names of the package-level functions of the codec package
+var codecFuncNames = map[string]bool{}
+
 const ctxGlobal = "checksumServiceContext"
 
 type lockEnv struct {
